@@ -1374,7 +1374,9 @@ macro_rules! skip_iterator_iter_base {
         #[inline(always)]
         fn current_count(&self) -> usize {
             if Self::IS_CONTIGUOUS {
-                self.byte.current_count()
+                // The digits of a contiguous component are not counted one by one,
+                // even if other components of the format skip digit separators.
+                self.byte.cursor()
             } else {
                 self.byte.$count
             }
